@@ -33,7 +33,59 @@ def intern : Store → Bdd.Ptr → Store × Ref
       | none => let r := insertRaw s2 ⟨v, rlo, rhi⟩; (r.1, r.2)
     (s3, if c then .compl idx else .reg idx)
 
+/-- `kind=sdd` lines: queries of several result types and weight maps on diagrams of one SDD
+builder (and their negations, which share every node).  Specification: every answer equals the
+answer on a freshly built copy and the brute-force value computed from the diagram's truth table
+(printed per query); every scratch slot reachable from the watched diagrams is empty after every
+call. -/
+def checkQuerySddLine (kvs : List (String × String)) (rhs : String) : String := Id.run do
+  let some n := (lookup kvs "n").bind parseNat? | return "FAIL PARSE n"
+  if rhs.startsWith "panic:" then return s!"FAIL SPEC a query panicked: {rhs}"
+  let okv := splitKV rhs
+  let qs := ((lookup kvs "qs").getD "").splitOn ","
+  let ans := ((lookup okv "ans").getD "").splitOn "|"
+  let fresh := ((lookup okv "fresh").getD "").splitOn "|"
+  let tts := ((lookup okv "tts").getD "").splitOn "|"
+  let clear := (lookup okv "clear").getD ""
+  if ans.length != qs.length || fresh.length != qs.length || tts.length != qs.length then return "FAIL PARSE lengths"
+  if clear.toList.any (· != '1') then
+    return s!"FAIL SPEC a scratch slot reachable from a diagram of the SDD builder is occupied after a public call returned (call #{clear.toList.idxOf '0'})"
+  let vars := List.range n
+  let a0 : Assign := fun _ => false
+  let big := Constants.u64largest
+  let mut kinds := 0
+  for ((q, i), tt) in (qs.zipIdx).zip tts do
+    let a := ans.getD i ""
+    if a != fresh.getD i "" then
+      return s!"FAIL SPEC query #{i} ({q}) answered {a} after earlier queries but {fresh.getD i ""} on a freshly built copy"
+    let bits := tt.toList.toArray
+    let f : BoolFn := fun asg => bits.getD (assignIndex n asg) '0' == '1'
+    let body := match q.splitOn ":" with | [_, b] => b | _ => ""
+    let kind := body.take 1 |>.toString
+    let arg := (body.drop 1).toString
+    if kind == "W" then
+      let ws := (arg.splitOn "_").filterMap fun p => match p.splitOn "." with
+        | [l, h] => do some ((← l.toNat?), (← h.toNat?)) | _ => none
+      let want := wsum (Sem.ffOps big) vars (weightsOf ws) f a0
+      -- the fold is unsmoothed: it agrees with the sum over all variables only for normalised
+      -- weights; with arbitrary weights it is compared with the fresh copy only
+      if ws.all (fun (l, h) => (l + h) % big == 1) && a != toString want then
+        return s!"FAIL SPEC query #{i}: count {a}, brute-force sum {want}"
+      kinds := kinds + 1
+    else if kind == "R" then
+      let ks := (arg.splitOn "_").filterMap String.toNat?
+      let w : Weights Rat := fun v => let k : Rat := mkRat (ks.getD v 0) 8; (1 - k, k)
+      let want := wsum Sem.realOps vars w f a0
+      if a != showRat want then return s!"FAIL SPEC query #{i}: real count {a}, brute-force sum over models {showRat want}"
+      kinds := kinds + 1
+    else if kind == "E" then
+      if a != (if f (assignOfNat (arg.toNat?.getD 0)) then "1" else "0") then return s!"FAIL SPEC query #{i}: evaluate {a}"
+    else if kind == "N" then pure ()
+    else return s!"FAIL PARSE query kind {kind}"
+  return s!"ok nontrivial={if kinds > 1 then 1 else 0}"
+
 def checkQueryLine (kvs : List (String × String)) (rhs : String) : String := Id.run do
+  if lookup kvs "kind" == some "sdd" then return checkQuerySddLine kvs rhs
   let some n := (lookup kvs "n").bind parseNat? | return "FAIL PARSE n"
   let some order := (lookup kvs "order").bind parseNatList | return "FAIL PARSE order"
   let some qsS := lookup kvs "qs" | return "FAIL PARSE qs"
